@@ -358,3 +358,68 @@ def replay_gauge():
     d = max((outs[0][0] - outs[1][0]).abs().max().item(), (outs[0][1] - outs[1][1]).abs().max().item())
     print("replay gauge: max |w(R) - w(G R)| = %.3e" % d)
     return d > 1e-10
+
+
+# ------------------------------------------------------------------------------------------------
+# d: d-orbital rotation matrices (PM6): the p block is a rotation whose first row is the bond direction, incl. the polar branch
+# ------------------------------------------------------------------------------------------------
+
+
+def replay_rotation_d(v):
+    """float64: p block of GenerateRotationMatrix at the (unit) direction v: orthogonality and first row = -v"""
+    from seqm.seqm_functions.RotationMatrixD import GenerateRotationMatrix
+
+    x = torch.tensor([v], dtype=torch.float64)
+    x = x / x.norm()
+    M = GenerateRotationMatrix(x)
+    P = torch.stack([M[0, 0:3, k] for k in (1, 3, 6)])  # P[K, :]
+    e_row = (P[0] + x[0]).abs().max().item()
+    e_orth = (P @ P.T - torch.eye(3)).abs().max().item()
+    D = torch.stack([M[0, 0:5, k] for k in (10, 15, 21, 28, 36)])
+    e_d = (D @ D.T - torch.eye(5)).abs().max().item() if M.shape[1] >= 5 else 0.0
+    print("replay GenerateRotationMatrix v=%s: |P row0 + v| = %.3e, |P P^T - 1| = %.3e" % (x[0].tolist(), e_row, e_orth))
+    return e_row > 1e-8 or e_orth > 1e-8
+
+
+@obligation(PID, "d", title="d-orbital rotation (PM6): the p block of GenerateRotationMatrix is orthogonal and its first row is the bond direction, for every unit vector incl. the polar branch xy < 1e-10")
+def ob_d(ob):
+    from seqm.seqm_functions.RotationMatrixD import GenerateRotationMatrix
+
+    ob.encodes(GenerateRotationMatrix)
+    ob.bound("all unit vectors (3 symbolic reals); regular and polar branch explored by path forking; p block read from the returned matrix (columns 1,3,6)")
+    vx, vy, vz = z3.Reals("vx vy vz")
+    V = [vx, vy, vz]
+    unit = [vx * vx + vy * vy + vz * vz == 1]
+
+    def fn():
+        x = SymTensor(np.array([[vx, vy, vz]], dtype=object))
+        with symbolic_factories():
+            M = GenerateRotationMatrix(x)
+        return np.array([[M.a[0, c, k] for c in range(3)] for k in (1, 3, 6)], dtype=object)
+
+    ex = Explorer(assumptions=unit, piecewise="ite", kind="nra")
+    res = ex.run(fn)
+    ob.paths += ex.paths
+    ob.require(ex.paths >= 2, "expected regular and polar paths, got %d" % ex.paths)
+    tol = z3.RealVal("1e-8")
+    absz = lambda e: z3.If(e >= 0, e, -e)
+    for pc, side, P in res:
+        S.ST.side[:] = side
+        base = unit + list(pc)
+        claims = [("row0[%d] = -v" % j, P[0, j] == -V[j], absz(P[0, j] + V[j]) <= tol) for j in range(3)]
+        for i in range(3):
+            for j in range(i, 3):
+                d = sum(P[i, k] * P[j, k] for k in range(3)) - (1 if i == j else 0)
+                claims.append(("orth[%d,%d]" % (i, j), d == 0, absz(d) <= tol))
+        for name, cexact, c in claims:
+            v, m = smt.prove(cexact, base, "d:" + name + " (exact)", "nra", 30)
+            if v != "unsat":
+                v, m = smt.prove(c, base, "d:" + name, "nra", 90)
+            if v == "sat":
+                vv = [float(smt.model_value(m, x)) for x in V]
+                if replay_rotation_d(vv):
+                    ob.violation("GenerateRotationMatrix violates '%s' at v=%s (PM6 d-orbital pairs are rotated into the wrong frame)" % (name, vv), {"module": "harness.C02", "func": "replay_rotation_d", "args": {"v": vv}})
+                else:
+                    raise HarnessError("d-rotation counterexample at v=%s did not reproduce (%s)" % (vv, name))
+                return
+            ob.verdict(v, "d:" + name)
